@@ -579,9 +579,7 @@ func (g *Gen) binop(st *State, x *ssa.BinOp) {
 		g.setVal(x, fmt.Sprintf("(%s %s %s)", op, a, b))
 	case token.ADD, token.SUB, token.MUL:
 		if isStr {
-			n := g.sc.fresh("strcat", "Str")
-			g.sc.emit("(assert (= (strlen %s) (+ (strlen %s) (strlen %s))))", n, a, b)
-			g.val[x] = n
+			g.setVal(x, fmt.Sprintf("(strcat %s %s)", a, b)) // concatenation is a function of its operands
 			return
 		}
 		if isFloat {
